@@ -64,8 +64,8 @@ class C24(Prop):
     budget = {'quick': 4000, 'thorough': 60000}
     search_budget = {'quick': 4000, 'thorough': 40000}
     rule = ('case = (count, W in ticks of 2^-10 s, timed events, tail); event = n entrants arrive together (each a task `async with '
-            'limiter: record time; await asyncio.sleep(d); [raise]`) or entrant k is cancelled (Task.cancel, inside its body or while it '
-            'waits in __aenter__); after each event the loop is settled without advancing the clock, `advance` moves the virtual clock '
+            'limiter: record time; await asyncio.sleep(d); [raise]`), entrant k is cancelled (Task.cancel, inside its body or while it '
+            'waits in __aenter__), or the loop is blocked for d ticks (the clock moves on, due timers fire late); after each event the loop is settled without advancing the clock, `advance` moves the virtual clock '
             'firing timers in order; compared: admit/sleep per arrival, where a cancel hit, admission times per advance, number still '
             'waiting / in a body; non-trivial = somebody had to sleep or an admitted entrant was cancelled; distinct by full case')
     trusted = ['harness/aloop.py virtual clock (VLoop) and patch_time (time.time -> loop clock)',
@@ -86,6 +86,7 @@ class C24(Prop):
     # ---- generation ----------------------------------------------------------------------------
     # events: [dt, 'a', n, d, e]  after dt ticks n entrants arrive together; each body lasts d ticks and ends by an exception iff e
     #         [dt, 'c', k]        after dt ticks entrant k (numbered in arrival order) is cancelled (in its body or while it waits)
+    #         [dt, 's']           the event loop is busy (blocked) for dt ticks: the clock moves on, timers that become due fire late
     def _random_case(self, rng):
         W = rng.choice([4, 8, 8, 16, 40, 1024])
         count = rng.choice([1, 1, 2, 2, 3, 5])
@@ -97,6 +98,7 @@ class C24(Prop):
         total = 0
         style = rng.random()
         p_cancel = rng.choice([0.0, 0.15, 0.35])
+        p_stall = rng.choice([0.0, 0.0, 0.2, 0.4])
         for _ in range(n_ev):
             if style < 0.3:
                 g = rng.choice([0, 1, 1, 2, 4])            # dense: bursts inside one window
@@ -107,6 +109,10 @@ class C24(Prop):
             dt = g * q
             if rng.random() < 0.35:
                 dt = max(0, dt + rng.choice([-1, 1, -2, 2]))
+            if total and rng.random() < p_stall:
+                # a busy loop: sleeps that end meanwhile overshoot; then somebody arrives less than a window after the late wake-up
+                events.append([rng.choice([1, q, 2 * q, W, W + q, W + 1, 2 * W + 1]), 's'])
+                continue
             if total and rng.random() < p_cancel:
                 k = max(0, total - 1 - rng.choice([0, 0, 1, 2, 3, 5])) if rng.random() < 0.9 else rng.randrange(total + 2)
                 events.append([rng.choice([0, 1, q, dt]), 'c', k])
@@ -117,20 +123,22 @@ class C24(Prop):
             total += n
         longest = max([e[3] for e in events if e[1] == 'a'] + [0])
         tail = (total // max(count, 1) + 2) * W + longest + rng.choice([0, 1, 3])
+        tail += sum(e[0] for e in events if e[1] == 's')
         return {'count': count, 'W': W, 'events': events, 'tail': tail}
 
     def _exhaustive(self, count, W, n_ev, small=False):
         """all event lists of n_ev events over a small alphabet: arrivals (delay on the W/4 grid and next to W, 1-2 entrants, body
         shorter / longer than a window) and cancellations of entrant 0..2 right away or one tick later"""
         q = W // 4
-        delays = [0, q, W] if small else [0, q, W - 1, W, W + 1]
+        delays = [0, q, 3 * q, W] if small else [0, q, 3 * q, W - 1, W, W + 1]
         alphabet = [[dt, 'a', n, d, 0] for dt in delays for n in (1, 2) for d in (0, W + q)]
         alphabet += [[dt, 'c', k] for dt in (0, 1) for k in ((0, 1) if small else (0, 1, 2))]
+        alphabet += [[dt, 's'] for dt in ((q, W + q) if small else (q, W, W + q))]      # the loop is busy for dt ticks
         out = []
 
         def rec(evs, total):
             if len(evs) == n_ev:
-                out.append({'count': count, 'W': W, 'events': [list(e) for e in evs], 'tail': (total // count + 3) * W + q})
+                out.append({'count': count, 'W': W, 'events': [list(e) for e in evs], 'tail': (total // count + 5) * W + q})
                 return
             for e in alphabet:
                 if e[1] == 'c' and e[2] >= total:
@@ -168,6 +176,9 @@ class C24(Prop):
         out = ['reset', f"cfg {c['count']} {c['W']}"]
         k = 0
         for ev in c['events']:
+            if ev[1] == 's':
+                out.append(f'stall {ev[0]}' + hint())
+                continue
             out.append(f'advance {ev[0]}' + hint())
             if ev[1] == 'a':
                 for _ in range(ev[2]):
@@ -230,9 +241,26 @@ class C24(Prop):
                     return (f"t={self._tick(s.loop._vtime)} adm={','.join(str(admit[k]) for k in order[n0:])} sleeping={sleeping} "
                             f"body={len(inside)}")
 
+                stalls = []
+
+                def stall(dt):
+                    n0 = len(order)
+                    a0 = len(proxy.attempts)
+                    start = self._tick(s.loop._vtime)
+                    s.stall(dt * TICK)
+                    stalls.append((start, start + dt))
+                    hints.append([int(x) for x in proxy.attempts[a0:]])
+                    check()
+                    sleeping = sum(1 for k, t in enumerate(tasks) if not t.done() and k not in admit)
+                    return (f"t={self._tick(s.loop._vtime)} adm={','.join(str(admit[k]) for k in order[n0:])} sleeping={sleeping} "
+                            f"body={len(inside)}")
+
                 out = ['ok', 'ok']
                 k = 0
                 for ev in c['events']:
+                    if ev[1] == 's':
+                        out.append(stall(ev[0]))
+                        continue
                     out.append(adv(ev[0]))
                     if ev[1] == 'a':
                         for _ in range(ev[2]):
@@ -264,7 +292,8 @@ class C24(Prop):
                 out.append(adv(c['tail']))
                 failed = sum(1 for t in tasks if t.done() and not t.cancelled() and isinstance(t.exception(), Injected))
                 trace = {'arrive': arrive, 'admit': admit, 'end': self._tick(s.loop._vtime),
-                         'hints': hints, 'cancel_wait': cancelled_waiting, 'cancel_body': cancelled_body, 'failed': failed,
+                         'hints': hints, 'stalls': stalls, 'late': sum(1 for k2, a2 in admit.items() if any(x < a2 == y for x, y in stalls)),
+                         'cancel_wait': cancelled_waiting, 'cancel_body': cancelled_body, 'failed': failed,
                          'resleep': sum(1 for v in proxy.sleeps.values() if v >= 2), 'slept': len(proxy.sleeps)}
                 return out, trace
         finally:
@@ -315,7 +344,13 @@ class C24(Prop):
                 t, when = end + 1, f'still not admitted at {end}'
             if t < r:
                 return f'entrant {k} admitted at {t} before it arrived at {r}'
-            instants = sorted({r} | {a + W for a in A if r < a + W})
+            # while the loop is blocked nobody can be admitted: an instant inside a stall counts as the end of that stall
+            def runnable(x):
+                for a0, b0 in tr.get('stalls', []):
+                    if a0 < x < b0:
+                        return b0
+                return x
+            instants = sorted({runnable(x) for x in {r} | {a + W for a in A if r < a + W}})
             for x in instants:
                 if x >= t or x > end:
                     break
@@ -350,6 +385,13 @@ class C24(Prop):
                 tags.append('arrival-within-window-of-cancelled-admission')
         if tr['cancel_wait']:
             tags.append('cancel-while-waiting')
+        if tr.get('stalls'):
+            tags.append('loop-stall')
+        if tr.get('late'):
+            tags.append('admitted-late-after-a-stall')
+            if any(a2 < r2 < a2 + W for k2, a2 in tr['admit'].items() if any(x < a2 == y for x, y in tr['stalls'])
+                   for r2 in tr['arrive'].values()):
+                tags.append('arrival-within-window-of-late-admission')
         if tr['failed']:
             tags.append('body-exit-by-exception')
         if 'err' in out:
